@@ -429,7 +429,18 @@ FUNC_PROBES = [
     ("probe", "!__builtin_types_compatible_p(typeof(__func__), const char[5])"), ("probe", "__builtin_types_compatible_p(typeof(__func__), const char[6])"),
     ("a", "sizeof __func__ == 2"), ("a_rather_long_function_name_0123456789", "sizeof __func__ == 39"), ("probe", "sizeof(0, __func__) == sizeof(char *)"),
     ("probe", "_Generic(&__func__[0], const char *: 1, default: 0)"), ("main", "sizeof __func__ == 5"),
+    # `struct S;` in a block declares a new type that hides the outer S (6.7.2.3p7): it is not compatible with it, and what
+    # is declared from it before its completion has the inner type
+    ("tg1", "_Generic(&outer5, struct S5 *: 0, default: 1)", "struct S5;"),
+    ("tg2", "sizeof *p == 32", "struct S5; struct S5 *p = 0; struct S5 { long b; char c[24]; };"),
+    ("tg3", "_Generic(p, struct S5 *: 1, default: 0) && !__builtin_types_compatible_p(typeof(*p), typeof(outer5))", "struct S5; struct S5 *p = 0; struct S5 { long b; };"),
+    ("tg4", "_Generic(&uouter5, union U5 *: 0, default: 1)", "union U5;"),
+    ("tg5", "_Generic(&outer5, struct S5 *: 1, default: 0)", "struct S5 *q = &outer5; (void)q;"),
+    ("tg6", "_Generic(&outer5, struct S5 *: 0, default: 1) && sizeof(struct S5) == 2", "{ struct S5; } struct S5 { char c[2]; };"),
+    ("tg7", "sizeof(*(struct S5 *)0) == sizeof(int)", "{ struct S5; struct S5 { char c[9]; }; }"),
+    ("tg8", "_Generic((struct S5 *)0, typeof(&outer5): 0, default: 1)", "for (struct S5 *i = 0; ; ) { struct S5; struct S5 *j = 0; (void)i; (void)j;"),
 ]
+FUNC_PRE = "struct S5 { int a; }; struct S5 outer5; union U5 { int a; }; union U5 uouter5;\n"
 
 
 def ptr_enum(ctx):
@@ -458,25 +469,28 @@ def ptr_check(case, ctx):
         probes.append(("k%d" % (1000 + j), 1, e, "ptr", None, None, False))
     fprobes = []
     seen = {}
-    for name, e in FUNC_PROBES:
+    lines.append(FUNC_PRE)
+    for name, e, *pre in FUNC_PROBES:
+        pre = pre[0] if pre else ""
+        tail = " break; }" if pre.startswith("for (") else ""
         seen[name] = seen.get(name, 0) + 1
         if seen[name] > 1 or name == "main":
             # one definition per name and unit: the others go into units of their own below
-            fprobes.append((name, e, None))
+            fprobes.append((name, e, None, pre, tail))
             continue
-        fprobes.append((name, e, "int %s(void) { _Static_assert(%s, \"probe\"); return 0; }" % (name, e)))
+        fprobes.append((name, e, "int %s(void) { %s _Static_assert(%s, \"probe\");%s return 0; }" % (name, pre, e, tail), pre, tail))
         lines.append(fprobes[-1][2])
     src = "\n".join(lines) + "\n"
     res.n += len(probes)
-    for name, e, inl in fprobes:
-        one = "int %s(void) { _Static_assert(%s, \"probe\"); return 0; }\n" % (name, e)
+    for name, e, inl, pre, tail in fprobes:
+        one = FUNC_PRE + "int %s(void) { %s _Static_assert(%s, \"probe\");%s return 0; }\n" % (name, pre, e, tail)
         q = cproc.cc(ctx, one.encode(), target, "plain")
         res.n += 1
         if q.rc != 0:
             if clang_values(ctx, one + "int k0 = 1;\n", target) is None:
                 res.discard.append("func-probe-rejected-by-clang: " + e)
                 continue
-            res.fail = dict(sig="func-probe:" + e, msg="property of __func__ in %s() on %s does not hold: %s: %s" % (name, target, e, q.err.decode(errors="replace")[:200]), input=one)
+            res.fail = dict(sig="func-probe:" + e, msg="function-scope typing probe in %s() on %s does not hold: %s: %s" % (name, target, e, q.err.decode(errors="replace")[:200]), input=one)
             return res
         res.keys.append(sha([name, e, target]))
     p = cproc.cc(ctx, src.encode(), target, "plain", timeout=60)
